@@ -48,6 +48,9 @@ def cases(ctx):
         nt = h[0] == 0 or net != 'testnet'
         ctx.count(f'addr-{ty}-{net}')
         yield Case(f'b58_addr {np(ty, net)} {hx(h)}', 'ms', nontrivial=nt, tag='addr')
+        if rng.random() < 0.3:      # the same object again on another network
+            net2 = rng.choice([n for n in NETS if n != net])
+            yield Case(f'b58_addr {np(ty, net2)} {hx(h)}', 'ms', nontrivial=True, tag='addr-other-net')
         s = b58c(prefix(ty, net) + h)
         yield Case(f'b58_accept {np(ty, net)} {sh(s)}', 'ms', nontrivial=nt, tag='accept-valid')
     for _ in range(ctx.n(120, 5000)):
@@ -86,6 +89,7 @@ def cases(ctx):
 
 
 PUBS = {}
+ADDRS = {}
 
 
 def impl(op, a, ctx):
@@ -96,7 +100,7 @@ def impl(op, a, ctx):
     cls = P2pkhAddress if ty == 'p2pkh' else P2shAddress
     if op == 'b58_addr':
         h = F.bytes()
-        a1 = cls(hash160=h.hex())
+        a1 = ADDRS.setdefault((ty, h), cls(hash160=h.hex()))      # re-used across networks
         return 'ok ' + sh(a1.to_string())
     if op == 'b58_accept':
         s = F.bytes().decode()
